@@ -24,6 +24,10 @@ pub struct Case {
     pub op: Op,
     /// false: DateTime receiver; true: Date receiver (date operations only, no offset)
     pub date: bool,
+    /// != 0: the receiver carries its offset as `Offset::Local` under an injected zone file whose
+    /// offset at this pinned Unix time is `off` (and differs at most other times)
+    #[serde(default)]
+    pub local_now: i64,
 }
 
 const SETTERS: [&str; 10] = ["set_year", "set_month", "set_day", "set_day_of_year", "set_hour", "set_minute", "set_second", "set_milli", "set_micro", "set_nano"];
@@ -159,7 +163,8 @@ impl Prop for SetClear {
         } else {
             Op::Clear { until: if date { u.below(3)? as u8 } else { u.below(9)? as u8 } }
         };
-        Ok(Case { i, off, op, date })
+        let local_now = if !date && u.coin(1, 6)? { u.range_i64(-1_900_000_000, 2_100_000_000)? } else { 0 };
+        Ok(Case { i, off, op, date, local_now })
     }
     fn check(c: &Case, cx: &mut Cx) -> Verdict {
         if !c.i.valid() || c.off.abs() > 86_399 || (c.date && c.off != 0) {
@@ -260,11 +265,19 @@ impl Prop for SetClear {
                 Ok((rd_date(&r) as i128 * tl::DAY_NS, None, (r.year(), r.month(), r.day(), r.day_of_year(), r.weekday()), None))
             })
         } else {
-            let d0: DateTime = match catch(|| mk_dt_off_any(utc, c.off)) {
+            let use_local = c.local_now != 0 && local_now_ok(c.local_now) && utc.div_euclid(tl::DAY_NS) > (cal::MIN_DAY + 3) as i128 && utc.div_euclid(tl::DAY_NS) < (cal::MAX_DAY - 3) as i128;
+            if use_local {
+                cx.nt("offset_carried_as_Offset::Local");
+                pin_local(c.off, c.local_now);
+            }
+            let d0: DateTime = match catch(|| if use_local { mk_dt_off_any(utc, 0).set_offset(Offset::Local) } else { mk_dt_off_any(utc, c.off) }) {
                 Ok(d) => d,
-                Err(p) => return fail("c09.harness_build", "receiver builds", p.short()),
+                Err(p) => {
+                    unpin_local();
+                    return fail("c09.harness_build", "receiver builds", p.short());
+                }
             };
-            catch(|| {
+            let res = catch(|| {
                 let r = match &c.op {
                     Op::Set { field, v } => match field {
                         0 => d0.set_year(*v as i32)?,
@@ -301,7 +314,13 @@ impl Prop for SetClear {
                     (r.year(), r.month(), r.day(), r.day_of_year(), r.weekday()),
                     Some((r.hour(), r.minute(), r.second(), r.milli(), r.micro(), r.nano())),
                 ))
-            })
+            });
+            unpin_local();
+            // a value that carried Offset::Local keeps it; everything else reads as with Fixed(off)
+            match res {
+                Ok(Ok((i, Some(o), d, t))) if use_local => Ok(Ok((i, Some(if o == Offset::Local { Offset::Fixed(c.off) } else { Offset::Fixed(i32::MIN) }), d, t))),
+                other => other,
+            }
         };
         let sig = format!("c09.{}", opname);
         match (want_local, r) {
